@@ -456,10 +456,17 @@ theorem match_named (h : Heap) (n : Name) (nt o : Bool) (m : Name) (fl : Field) 
       = .ok (.bool (m == n)) := by
   simp [applyMatch, eval, selfField, Env.upd]
 
-/-- … of a filtered observer: the filter itself (on the names `traits()` lists). -/
+theorem lookup_listed :
+    lookup NodeProg.table "_filtered_trait_observer._ListedTraitFilter.__call__" = some NodeProg.listedFilterCall := by
+  simp [lookup, NodeProg.table]
+
+/-- … of a filtered observer: the translated `_ListedTraitFilter.__call__`
+(`name[-6:] != "_items" and self.filter(name, trait)`), i.e. the filter itself: the model's
+names never end in "_items". -/
 theorem match_filtered (h : Heap) (f : Filter) (m : Name) (fl : Field) :
     applyMatch NodeProg.table h (.listed f) m fl = .ok (.bool (f.matches fl)) := by
-  simp [applyMatch, call_filter]
+  simp only [applyMatch, lookup_listed, runBody, NodeProg.listedFilterCall, exec, eval, selfField]
+  simp [Env.upd, call_filter]
 
 /-! ### the node interface is the source -/
 
@@ -544,5 +551,131 @@ example :
   intro hd
   have := hd _ rfl ⟨0, true, .val .none, .ref 3, .equality⟩ (by simp)
   simp [findField] at this
+
+/-! ### TraitAddedObserver / _RestrictedNamedTraitObserver (_trait_added_observer.py) -/
+
+theorem added_init_rows :
+    NodeProg.addedInit = [(.matchFunc, "match_func"), (.optional, "optional")] ∧
+    NodeProg.restrictedInit = [(.name, "name"), (.wrapped, "wrapped_observer")] := by
+  decide
+
+/-- `TraitAddedObserver.notify` is `False`. -/
+theorem added_notify (h : Heap) (m : MF) (opt : Bool) :
+    runNotify NodeProg.table h NodeProg.addedNotify (.added m opt) = .ok (.bool false) := by
+  simp [runNotify, runRetS, NodeProg.addedNotify, exec, eval]
+
+/-- `_RestrictedNamedTraitObserver.notify` is the wrapped observer's. -/
+theorem restricted_notify (h : Heap) (n : Name) (w : Observer) :
+    runNotify NodeProg.table h NodeProg.restrictedNotify (.restricted n w) = .ok (.bool w.notify) := by
+  cases w <;> simp [runNotify, runRetS, NodeProg.restrictedNotify, exec, eval, selfField, Observer.notify]
+
+/-- `TraitAddedObserver.iter_observables`: the `trait_added` trait of an instance, else nothing
+(optional) / ValueError — what `extraObservables` uses (`extraObservables_eq`). -/
+theorem added_observables (h : Heap) (m : MF) (opt : Bool) (x : W)
+    (hta : ∀ fs, h.at x = .inst fs → (findField fs nTraitAdded).isSome) :
+    runIterObservablesS NodeProg.table h NodeProg.addedIterObservables (.added m opt) x
+      = traitAddedObservables h opt x := by
+  simp only [runIterObservablesS, runGenS, NodeProg.addedIterObservables, exec, eval, selfField,
+    traitAddedObservables]
+  cases x with
+  | none => cases opt <;> simp [call_hasNamed, hasTrait, at_none, Env.upd, mapE]
+  | some i =>
+    cases hx : h.at (some i) with
+    | inst fs =>
+      have := hta fs hx
+      simp [call_hasNamed, hasTrait, hx, this, Env.upd, mapE, toObservable]
+    | list _ => cases opt <;> simp [call_hasNamed, hasTrait, hx, Env.upd, mapE]
+    | dict _ => cases opt <;> simp [call_hasNamed, hasTrait, hx, Env.upd, mapE]
+    | set _ => cases opt <;> simp [call_hasNamed, hasTrait, hx, Env.upd, mapE]
+    | junk => cases opt <;> simp [call_hasNamed, hasTrait, hx, Env.upd, mapE]
+
+/-- `TraitAddedObserver.iter_objects` / `iter_extra_graphs` and
+`_RestrictedNamedTraitObserver.iter_extra_graphs` yield nothing. -/
+theorem added_restricted_empty (h : Heap) (m : MF) (opt : Bool) (n : Name) (w : Observer) (x : W) (g : Graph) :
+    runIterObjectsS NodeProg.table h NodeProg.addedIterObjects (.added m opt) x = .ok [] ∧
+    runIterExtraGraphsS NodeProg.table h NodeProg.addedIterExtraGraphs (.added m opt) g = .ok [] ∧
+    runIterExtraGraphsS NodeProg.table h NodeProg.restrictedIterExtraGraphs (.restricted n w) g = .ok [] := by
+  simp [runIterObjectsS, runIterExtraGraphsS, runGenS, NodeProg.addedIterObjects, NodeProg.addedIterExtraGraphs,
+    NodeProg.restrictedIterExtraGraphs, exec, evalIt, mapE]
+
+/-- `TraitAddedObserver.get_maintainer`: an `ObserverChangeNotifier` whose `observer_handler` is
+`TraitAddedObserver.observer_change_handler` (`MKind.added`) and whose `prevent_event` is
+`self.prevent_event`. -/
+theorem added_get_maintainer (h : Heap) (m : MF) (opt : Bool) (c : Graph) (hd : Nat) (t : Id) :
+    runRetS NodeProg.table h NodeProg.addedGetMaintainer (.added m opt)
+        ((((Env.empty.upd 0 (.graph c)).upd 1 (.handler hd)).upd 2 (.w (some t))).upd 3 .dispatcher)
+      = .ok (.notifier (.maint .added c ⟨hd, t⟩) "_trait_change_event.trait_event_factory"
+          (.ref "_trait_added_observer.TraitAddedObserver.prevent_event")) := by
+  simp [runRetS, NodeProg.addedGetMaintainer, exec, eval, hkey, mkindOf, Env.upd]
+
+/-- `_RestrictedNamedTraitObserver.iter_observables` yields `object._trait(self.name, 2)`
+UNCONDITIONALLY (AttributeError on a non-instance). -/
+theorem restricted_observables_raw (h : Heap) (n : Name) (w : Observer) (x : W) :
+    runIterObservablesS NodeProg.table h NodeProg.restrictedIterObservables (.restricted n w) x
+      = match x, h.at x with
+        | some i, .inst _ => .ok [.trait i n]
+        | _, _ => .error .attributeError := by
+  simp only [runIterObservablesS, runGenS, NodeProg.restrictedIterObservables, exec, eval, selfField]
+  cases x with
+  | none => simp [Env.upd]
+  | some i => cases hx : h.at (some i) <;> simp [Env.upd, hx, mapE, toObservable]
+
+/-- … which is the model's row (`observables` of `named n notify false`: the graph
+`Maintain.restrict g n`) when the trait exists — it does when the handler runs: `trait_added`
+fires for a trait that has just been added. -/
+theorem restricted_observables (h : Heap) (n : Name) (w : Observer) (x : W) (ht : hasTrait h x n = true) :
+    runIterObservablesS NodeProg.table h NodeProg.restrictedIterObservables (.restricted n w) x
+      = observables h (.named n w.notify false) x := by
+  obtain ⟨i, fs, rfl, hx⟩ := hasTrait_inst ht
+  rw [restricted_observables_raw]
+  simp [observables, hx, ht]
+
+/-- `_RestrictedNamedTraitObserver.iter_objects`: the `iter_objects` helper on `self.name`,
+never the wrapped observer's `iter_objects`. -/
+theorem restricted_objects_raw (h : Heap) (n : Name) (w : Observer) (x : W) :
+    runIterObjectsS NodeProg.table h NodeProg.restrictedIterObjects (.restricted n w) x
+      = .ok (valObjects (fieldVal h x n)) := by
+  simp only [runIterObjectsS, runGenS, NodeProg.restrictedIterObjects, exec, evalIt, eval, selfField]
+  simp [Env.upd, call_iterObjects, mapE_toW_yieldsOf]
+
+theorem restricted_objects (h : Heap) (n : Name) (w : Observer) (x : W) (ht : hasTrait h x n = true) :
+    runIterObjectsS NodeProg.table h NodeProg.restrictedIterObjects (.restricted n w) x
+      = objects h (.named n w.notify false) x := by
+  rw [restricted_objects_raw]
+  simp [objects, ht]
+
+/-- the translated method `meth` of the class of an observer -/
+def clsMeth (ob : Observer) (meth : String) : Option St :=
+  if meth = "get_notifier" then some (classOf ob).getNotifier
+  else if meth = "get_maintainer" then some (classOf ob).getMaintainer
+  else none
+
+/-- run a method body whose result may be a pending tail call into the class of another observer -/
+def runTailS (h : Heap) (s : St) (self : Self) (ρ : Env) : Except Exc V :=
+  match runRetS NodeProg.table h s self ρ with
+  | .ok v => resolveTail NodeProg.table clsMeth h v
+  | .error e => .error e
+
+/-- `_RestrictedNamedTraitObserver.get_notifier` / `get_maintainer` are the wrapped observer's
+(a tail call resolved in the class of the wrapped observer). -/
+theorem restricted_get_notifier (h : Heap) (n : Name) (w : Observer) (hd : Nat) (t : Id) :
+    runTailS h NodeProg.restrictedGetNotifier (.restricted n w)
+        (((Env.empty.upd 0 (.handler hd)).upd 1 (.w (some t))).upd 2 .dispatcher)
+      = .ok (.notifier (.user ⟨hd, t⟩) (eventFactoryOf w) (preventUserOf w)) := by
+  cases w <;>
+    simp [runTailS, runRetS, NodeProg.restrictedGetNotifier, exec, eval, evalArgs, tailOf, selfField, Env.upd, resolveTail,
+      clsMeth, classOf, runRet, NodeProg.namedGetNotifier, NodeProg.listItemsGetNotifier,
+      NodeProg.dictItemsGetNotifier, NodeProg.setItemsGetNotifier, NodeProg.filteredGetNotifier, hkey,
+      eventFactoryOf, preventUserOf]
+
+theorem restricted_get_maintainer (h : Heap) (n : Name) (w : Observer) (c : Graph) (hd : Nat) (t : Id) :
+    runTailS h NodeProg.restrictedGetMaintainer (.restricted n w)
+        ((((Env.empty.upd 0 (.graph c)).upd 1 (.handler hd)).upd 2 (.w (some t))).upd 3 .dispatcher)
+      = .ok (.notifier (.maint w.mkind c ⟨hd, t⟩) (eventFactoryOf w) (.constLam false)) := by
+  cases w <;>
+    simp [runTailS, runRetS, NodeProg.restrictedGetMaintainer, exec, eval, evalArgs, tailOf, selfField, Env.upd, resolveTail,
+      clsMeth, classOf, runRet, NodeProg.namedGetMaintainer, NodeProg.listItemsGetMaintainer,
+      NodeProg.dictItemsGetMaintainer, NodeProg.setItemsGetMaintainer, NodeProg.filteredGetMaintainer, hkey,
+      mkindOf, eventFactoryOf, Observer.mkind]
 
 end TraitsVerif.Lemmas.NodeSource
